@@ -193,6 +193,24 @@ CLAIMED.update({
 })
 
 CLAIMED.update({
+ "C12": dict(category="other",
+    text="permessage-deflate negotiation proved per function: Offer.parse / Response.parse accept exactly the parameter sets of "
+         "RFC 7692 7.1 (known names, each once, bare where required, window bits a decimal in 9..15) and report exactly "
+         "what was offered / responded -- unknown, duplicated and out-of-range parameters are refused; OfferAccept / "
+         "ResponseAccept refuse exactly the settings incompatible with the offer / response; each role compresses with "
+         "its own direction's window size and context-takeover mode and decompresses with the peer's, keeping a context "
+         "across messages exactly when takeover applies; lemma: after a successful negotiation both ends hold the same "
+         "effective parameters for both directions (what the accept's extension string announces is decided by "
+         "exhaustive enumeration of all admissible accepts on the real code).",
+    note="Trusted: z3, pyvc, int(text) as a function of the text, zlib as recorded constructor calls. Not covered (level "
+         "'other'): losslessness of the codecs themselves (zlib, bz2, snappy, brotli are third-party), "
+         "_parseExtensionsHeader and the handshake-side extension handling (C07), RSV1 on receive with a negotiated "
+         "extension, the bzip2 / snappy / brotli negotiation classes.",
+    technique="contract-based deductive verification: AST->VC, optional-key dictionaries, contract-level lemma program, z3; "
+              "one finite-domain lemma by exhaustive enumeration"),
+})
+
+CLAIMED.update({
  "C04": dict(category="proof",
     text="IdGenerator.next stays in 1..2^53 and is sequential; every reply arm of ApplicationSession.onMessage "
          "(PUBLISHED, SUBSCRIBED, UNSUBSCRIBED, REGISTERED, UNREGISTERED, RESULT incl. progressive, ERROR keyed by request "
